@@ -3,6 +3,7 @@ import glob
 import multiprocessing
 import os
 import re
+from concurrent.futures import ThreadPoolExecutor
 
 from harness import fw, types_x as tx, gen_typed as gt
 
@@ -91,19 +92,42 @@ def run(ctx):
         table_ok = False
         probes = []
         broken = str(ex)
+    # ---- cases ----------------------------------------------------------------------
+    cases = []   # (label, text, name, extra, Case|None, expect dict)
+    for nm, text, exp in load_corpus_cases():
+        cases.append(("corpus:" + nm, text, "m.emb", None, None, exp))
+    for p in sorted(glob.glob(os.path.join(fw.REPO, "testdata", "*.emb"))):
+        rel = os.path.relpath(p, fw.REPO)
+        if not ctx.thorough() and os.path.getsize(p) > 2500:
+            ctx.count("skipped-in-quick-tier:large-testdata-file")
+            continue
+        cases.append(("testdata:" + rel, open(p).read(), rel, None, None, {}))
+    n_base = 40 if ctx.thorough() else 5
+    for i in range(n_base):
+        base = gt.Base(ctx.rng, depth=ctx.rng.choice([1, 2, 2, 3]))
+        c = base.case()
+        cases.append(("gen:%d:base" % i, c.text(), "m.emb", None, c, {}))
+        for v in gt.c13_violations(base, ctx.rng):
+            cases.append(("gen:%d:%s" % (i, v.rule), v.text(), "m.emb", None, v, {}))
+    # largest inputs first, one per task, so that the tail of the pool is short
+    order = sorted(range(len(cases)), key=lambda i: -len(cases[i][1]))
+    pool = multiprocessing.Pool(min(fw.NPROC, 16))
+    pending = pool.map_async(tx.analyse_c13, [(cases[i][1], cases[i][2], cases[i][3], fw.REPO) for i in order], chunksize=1)
+
     if T is not None:
         trun = tx.coq_table(T)
         hdr = HEADER + "Definition T_run : sig_table := %s.\n" % trun
         ctx.extra["regenerated_sig_table"] = trun
         r = fw.CoqCases(ctx, "table", hdr, "(fun _ : unit => sig_table_eqb T_run impl_table)", "Bool.eqb", "unit", "bool")
-        bad = r.run([("tt", "true", None)])
-        same = not bad
-        ctx.obligation("regenerated sig_table = Types.Model.impl_table", same)
-        table_ok = same
+        tpool = ThreadPoolExecutor(4)
+        fut_table = tpool.submit(r.run, [("tt", "true", None)])
         pc = [tx.probe_case(fn, names, res) + ((fn, names, res),) for fn, names, res in probes
               if not res.startswith("CRASH")]
-        r = fw.CoqCases(ctx, "probes", hdr, "(run_probe T_run)", "tres_eqb", "(fn * list (shape * ty))", "tres", shard=400)
+        r = fw.CoqCases(ctx, "probes", hdr, "(run_probe T_run)", "tres_eqb", "(fn * list (shape * ty))", "tres", shard=150)
         badp = r.run(pc)
+        same = not fut_table.result()
+        ctx.obligation("regenerated sig_table = Types.Model.impl_table", same)
+        table_ok = same
         for a, b, obj in pc:
             ctx.case(("probe", a), nontrivial=True, sample=None)
             ctx.count("probe:" + obj[0].name)
@@ -116,22 +140,12 @@ def run(ctx):
     else:
         hdr = HEADER + "Definition T_run : sig_table := impl_table.\n"
 
-    # ---- cases ----------------------------------------------------------------------
-    cases = []   # (label, text, name, extra, Case|None, expect dict)
-    for nm, text, exp in load_corpus_cases():
-        cases.append(("corpus:" + nm, text, "m.emb", None, None, exp))
-    for p in sorted(glob.glob(os.path.join(fw.REPO, "testdata", "*.emb"))):
-        rel = os.path.relpath(p, fw.REPO)
-        cases.append(("testdata:" + rel, open(p).read(), rel, None, None, {}))
-    n_base = 40 if ctx.thorough() else 5
-    for i in range(n_base):
-        base = gt.Base(ctx.rng, depth=ctx.rng.choice([1, 2, 2, 3]))
-        c = base.case()
-        cases.append(("gen:%d:base" % i, c.text(), "m.emb", None, c, {}))
-        for v in gt.c13_violations(base, ctx.rng):
-            cases.append(("gen:%d:%s" % (i, v.rule), v.text(), "m.emb", None, v, {}))
-    with multiprocessing.Pool(min(fw.NPROC, 16)) as pool:
-        results = pool.map(tx.analyse_c13, [(t, n, e, fw.REPO) for _, t, n, e, _, _ in cases], chunksize=4)
+    results_sorted = pending.get()
+    pool.close()
+    pool.join()
+    results = [None] * len(cases)
+    for k, i in enumerate(order):
+        results[i] = results_sorted[k]
 
     coq_full, coq_plain = [], []
     n_viol_seen = {}
@@ -183,10 +197,13 @@ def run(ctx):
             coq_plain.append((an["coq"], "(CExpectV %s)" % ev, dict(label=label, text=text, rule=None, an=an)))
 
     in_ty = "(list ty * list ty * list item)"
-    r1 = fw.CoqCases(ctx, "gen", hdr, "(run_case T_run)", "cout_agrees", in_ty, "cout", shard=40)
-    bad1 = r1.run(coq_full) if coq_full else []
-    r2 = fw.CoqCases(ctx, "corpus", hdr, "(run_case T_run)", "cout_agrees", in_ty, "cout", shard=10)
-    bad2 = r2.run(coq_plain) if coq_plain else []
+    r1 = fw.CoqCases(ctx, "gen", hdr, "(run_case T_run)", "cout_agrees", in_ty, "cout", shard=14)
+    r2 = fw.CoqCases(ctx, "corpus", hdr, "(run_case T_run)", "cout_agrees", in_ty, "cout", shard=3)
+    with ThreadPoolExecutor(2) as tp:
+        f1 = tp.submit(r1.run, coq_full) if coq_full else None
+        f2 = tp.submit(r2.run, coq_plain) if coq_plain else None
+        bad1 = f1.result() if f1 else []
+        bad2 = f2.result() if f2 else []
     ctx.obligation("correspondence: %d generated modules: model verdict/site = compiler, doc_table verdict = catalogue, guard = catalogue"
                    % len(coq_full), not bad1)
     ctx.obligation("correspondence: %d corpus modules: model verdict = compiler" % len(coq_plain), not bad2)
